@@ -515,6 +515,16 @@ def make_cases(ctx):
   for a in P:
     for b in P:
       cases.append(dict(kind='pair', vals=[a, b], fam='num', dom=in_domain(a, 'num') and in_domain(b, 'num'), src='sweep'))
+  # (A') tuples outside the theorems' domain too (None / MISSING / mixed families inside): Python's own tuple `<`, TypeError paths
+  TP = [Tv([]), Tv([Iv(1)]), Tv([F(1, 0)]), Tv([Iv(1), Iv(2)]), Tv([Sv('a')]), Tv([Sv('a'), Sv('b')]), Tv([NONE]), Tv([NONE, Iv(1)]), Tv([NONE, Iv(2)]),
+        Tv([MISSING]), Tv([Iv(1), Sv('a')]), Tv([Iv(1), NONE]), Tv([B(True), Sv('a')]), Tv([Iv(1), Iv(2), Sv('x')]), Lv(0, [Tv([NONE]), Tv([Iv(1)])]), Lv(1, [Tv([NONE]), Tv([NONE])])]
+  for a in TP:
+    for b in TP:
+      cases.append(dict(kind='pair', vals=[a, b], fam='num', dom=in_domain(a, 'num') and in_domain(b, 'num'), src='sweep-tuples'))
+  # (A'') triples over the pool: transitivity across kinds
+  for _ in range(ctx.scale(1200, 30000)):
+    vals = [rng.choice(P) for _ in range(3)]
+    cases.append(dict(kind='triple', vals=vals, fam='num', dom=all(in_domain(v, 'num') for v in vals), src='pool'))
   # (B) random pairs, (C) random triples
   def fresh(g, d):
     for _ in range(50):
@@ -712,7 +722,7 @@ def run(ctx):
     if c['kind'] == 'pair':
       ctx.hist('pair_top_kinds', '%s/%s' % (kind_of(vals[0]), kind_of(vals[1])))
   for w, io in zip(wire, impl):
-    if w[0] == 0 and desc[id(w)]['src'] not in ('sweep',):
+    if w[0] == 0 and not desc[id(w)]['src'].startswith(('sweep', 'pool')):
       n_pairs += 1
       rel = 'eq' if io[0] == 1 else 'lt' if io[2] == [0, 1] else 'gt' if io[3] == [0, 1] else 'raises' if (io[2][0] == 1 or io[3][0] == 1) else 'none-of-the-three'
       n_eq += io[0] == 1
